@@ -67,7 +67,7 @@ func rawProtected(tok []byte) []byte {
 func init() {
 	drivers["ev-tamper"] = func(a *Args) {
 		d := loadDomains(a.In)
-		cc := Conc{a.Rand()}
+		cc := Conc{r: a.Rand()}
 		algs := []string{"ES256", "EdDSA", "PS256"}
 		if a.Tier == "thorough" {
 			algs = algNames
